@@ -14,6 +14,9 @@ type VerifBound struct {
 	Vlans      []uint16
 }
 
+// VerifC13PreHeld: if i > 0 the pod already holds the IP of its i-th requested range before it is scheduled.
+var VerifC13PreHeld int
+
 // VerifBindForC13 schedules one statefulset pod requesting k ranges (k = 0 means no request_ip_range) on topology
 // topo whose pools carry the VLAN ids vlans (pool i gets vlans[i mod len]; may be symbolic) through the real Filter and Bind and reports the outcome.
 func VerifBindForC13(topo, k int, vlans ...uint16) *VerifBound {
@@ -39,6 +42,13 @@ func VerifBindForC13(topo, k int, vlans ...uint16) *VerifBound {
 	}
 	w.createPod(vpMakePod("ss-0", "U1", vpKindSts, "", "", ranges))
 	w.syncListers()
+	if VerifC13PreHeld > 0 && VerifC13PreHeld <= k {
+		// the pod already holds the IP of one of its requested ranges (a former bind of a smaller request)
+		held := order[VerifC13PreHeld-1]
+		if err := w.plugin.ipam.AllocateSpecificIP(vpKeyOf(w.pods["ss-0"]), vpIP(held), floatingip.Attr{Policy: constant.ReleasePolicyPodDelete, NodeName: "n1", Uid: "U1"}); err != nil {
+			return nil
+		}
+	}
 	nodes, err := w.filter("ss-0", "n1", "n2", "n3")
 	if err != nil || len(nodes) == 0 {
 		return nil
